@@ -184,6 +184,15 @@ impl Scenario for Entropy {
                 p.set("n", 24);
                 p.steps.push(Step::new("processes", &[(index % 2) as i64]));
             }
+            "marathon" => {
+                // one thread, one cheap entry point, a call history longer than 2^18 (quick) / 2^22 (thorough):
+                // counters, reservation blocks and reseed intervals inside a generator wrap or hand over at powers of two
+                const CHEAP: [i64; 5] = [0, 1, 2, 10, 11];
+                p.set("entry", CHEAP[(index % 5) as usize]);
+                p.set("g", ((index / 5) % 2) as i64);
+                p.set("n", if tier == Tier::Quick { (1 << 18) + 4 } else { (1 << 22) + 4 });
+                p.steps.push(Step::new("marathon", &[]));
+            }
             _ => {
                 let mi = ((index / (2 * ne)) % MODES.len() as u64) as usize;
                 // one long call history per entry point (state that repeats only after many calls), shorter ones elsewhere
@@ -233,6 +242,37 @@ impl Scenario for Entropy {
                 check_distinct(rec, "across one call history", name, &mode, g, &all);
                 check_against_earlier_runs(rec, name, g, plan.seed, &all);
                 rec.sample(|| format!("{} g={} mode={} calls={} first ephemerals={:?}", name, g.name(), mode, all.len(), all.first().map(|x| x.2.iter().map(|(l, b)| format!("{}={}", l, short(b))).collect::<Vec<_>>())));
+            }
+            "marathon" => {
+                let prev = seams::set_entropy(Some(Xo::derive(plan.seed, &[0xD44])));
+                // (128-bit digest of label and value, call number): 24 bytes per exposed value instead of the value itself
+                let mut seen: Vec<(u128, u32)> = Vec::with_capacity(n + 8);
+                for i in 0..n {
+                    match call_once(rec, lib, g, op, &fx) {
+                        Ok(e) => {
+                            for (l, b) in e {
+                                let mut h = <sha2::Sha256 as sha2::Digest>::new();
+                                sha2::Digest::update(&mut h, l.as_bytes());
+                                sha2::Digest::update(&mut h, &b);
+                                let d = sha2::Digest::finalize(h);
+                                seen.push((u128::from_le_bytes(d[..16].try_into().unwrap()), i as u32));
+                            }
+                        }
+                        Err(e) => {
+                            rec.expect("C20", "randomized-call-succeeds", false, || format!("{} | {}", name, e));
+                            break;
+                        }
+                    }
+                }
+                seams::set_entropy(prev);
+                seen.sort_unstable();
+                let dup = seen.windows(2).find(|w| w[0].0 == w[1].0).map(|w| (w[0].1, w[1].1));
+                rec.probe("long-call-history-checked");
+                rec.expect("C20", "ephemerals-never-repeat", dup.is_none(), || {
+                    let (a, b) = dup.unwrap();
+                    format!("{} value | across one call history of {} calls on one thread [marathon] g={}: call #{} and call #{} expose the same value", name, n, g.name(), a, b)
+                });
+                rec.sample(|| format!("{} g={} mode=marathon calls={} exposed values={}", name, g.name(), n, seen.len()));
             }
             "mixed" => {
                 // all entry points interleaved on one thread; every exposed value is compared with every other of the
